@@ -208,10 +208,10 @@ let () =
       match v with
       | List [d] -> b (Dot.wf_cdfa (cdfa_of d))
       | _ -> raise (Shape "dotwf args"));
-  (* dotrxwf <payload> -> true | false : the hypothesis of the C16 regex theorems *)
+  (* dotrxwf <payload> -> true | false : the hypotheses (rx_wf_b, rx_total_b) of the C16 regex theorems *)
   register "dotrxwf" (fun v ->
       match v with
-      | List [payload] -> let (pool, r) = regex_payload payload in b (Dot.rx_wf_b pool r)
+      | List [payload] -> let (pool, r) = regex_payload payload in b (Dot.rx_wf_b pool r && Dot.rx_total_b pool r)
       | _ -> raise (Shape "dotrxwf args"));
   (* dotsubids <base> <dfa> -> ((poolidx id)...) : the prescribed numbering of the clusters *)
   register "dotsubids" (fun v ->
